@@ -226,7 +226,7 @@ def run(ctx):
     ctx.cov["histories"] = nh
     ctx.cov["traces_validated_against_impl"] = nh
     import loadedworld
-    lh = loadedworld.stream(ctx, g, ctx.rng, 6 if ctx.quick else 150, 12 if ctx.quick else 30, "loaded")
+    lh = loadedworld.stream(ctx, g, ctx.rng, 6 if ctx.quick else 150, 12 if ctx.quick else 30, "loaded", what={"forest", "aggregates"})
     ctx.cov["histories_continued_from_loaded_files"] = len(lh)
     ctx.cov["rule"] = ("random histories of %d ops over 2 IRs/3 modules/3 sections/4 intervals/6 blocks/2 proxies/4 symbols from both ends of all six "
                        "relations, forest observed after every op; one evaluation = one history; distinct = distinct item list" % ln)
